@@ -4,6 +4,8 @@ use crate::engine::*;
 
 pub mod c12;
 pub mod c13;
+pub mod c16;
+pub mod c17;
 pub mod c20;
 
 pub type ReplayFn = fn(&mut Ctx, &str, &[u8]) -> Result<Option<String>, Fail>;
@@ -12,12 +14,14 @@ pub fn registry(id: &str) -> Option<(&'static str, fn(&mut Ctx), ReplayFn)> {
     Some(match id {
         "C12" => ("C12", c12::run, c12::replay),
         "C13" => ("C13", c13::run, c13::replay),
+        "C16" => ("C16", c16::run, c16::replay),
+        "C17" => ("C17", c17::run, c17::replay),
         "C20" => ("C20", c20::run, c20::replay),
         _ => return None,
     })
 }
 
-pub const ALL_IDS: &[&str] = &["C12", "C13", "C20"];
+pub const ALL_IDS: &[&str] = &["C12", "C13", "C16", "C17", "C20"];
 
 /// E4: replay every committed reproduction of this property.
 /// A file that matches an *open* known finding prints its KNOWN-FINDING line;
